@@ -175,8 +175,8 @@ pub fn enum_discriminants_inner(ast: &DeriveInput) -> syn::Result<TokenStream> {
                 type Discriminant = #discriminants_name;
 
                 #[inline]
-                fn discriminant(&self) -> Self::Discriminant {
-                    <Self::Discriminant as ::core::convert::From<&Self>>::from(self)
+                fn discriminant(&self) -> #discriminants_name {
+                    <#discriminants_name as ::core::convert::From<&Self>>::from(self)
                 }
             }
         },
